@@ -53,7 +53,17 @@ type scen struct {
 	sendFail bool
 }
 
-func (s *scen) newTok() string { s.tok++; return strconv.Itoa(s.tok) }
+// newTok returns a fresh decimal token ending in a check digit (3 x digit sum mod 10): the byte-level family flips
+// single bits of records, and a token with one digit changed is never another token of the scenario, so a handler
+// that runs for a mutated record cannot be mistaken for the handler of another member.
+func (s *scen) newTok() string {
+	s.tok++
+	sum := 0
+	for n := s.tok; n > 0; n /= 10 {
+		sum += n % 10
+	}
+	return strconv.Itoa(s.tok) + strconv.Itoa(3*sum%10)
+}
 
 func (s *scen) method() string {
 	switch s.g.intn(12) {
